@@ -201,6 +201,12 @@ Theorem C15_integer_site_coincides : forall base off colon at_ ps c z, (2 <= bas
   arg_at c = Some (VInt z) -> dir_int true base off colon at_ ps c = dir_int false base off colon at_ ps c.
 Proof. exact integer_site_coincides. Qed.
 Print Assumptions C15_integer_site_coincides.
+(* ... whatever the argument is: one that is not an integer is written as by ~A, padded on the left, by both (since
+   repo_fixes/C15-13; it used to be written with escapes: finding C15-integer-directive-escapes-non-integer) *)
+Theorem C15_integer_site_coincides_any : forall base off colon at_ ps c, (2 <= base <= 36)%N ->
+  dir_int true base off colon at_ ps c = dir_int false base off colon at_ ps c.
+Proof. exact integer_site_coincides_any. Qed.
+Print Assumptions C15_integer_site_coincides_any.
 Theorem C15_roman_site_coincides : forall colon c z, (1 <= z <= 3999)%Z -> arg_at c = Some (VInt z) ->
   dir_radix true src_tables colon true [] c = dir_radix false src_tables colon true [] c.
 Proof. exact roman_site_coincides. Qed.
